@@ -350,6 +350,21 @@ fn make_function(code: u64) -> Function {
         _ => Function::new_named(""),
     }
 }
+/// are the functions built from two codes the same function? (decided from how they were built: both
+/// known with the same number, or both named with the same text - never by the library's own ==)
+fn same_function(a: u64, b: u64) -> bool {
+    let key = |code: u64| -> (u8, u64, String) {
+        match code % 6 {
+            0 => (0, code / 6 % 8, String::new()),
+            1 => (0, 1000 + code / 6 % 1000, String::new()),
+            2 => (1, 0, format!("fn{}", code / 6 % 5)),
+            3 => (1, 0, "add".to_string()),
+            4 => (0, 2, String::new()),
+            _ => (1, 0, String::new()),
+        }
+    };
+    key(a) == key(b)
+}
 fn make_parameter(code: u64) -> Parameter {
     match code % 4 {
         0 => Parameter::from(code / 4 % 6),
@@ -407,7 +422,9 @@ pub fn run_expr(scn: &Scenario, ctx: &mut Ctx) {
         let val = w.docs[d].env.clone();
         let val2 = w.docs[w.idx(st.arg(0) + 1).unwrap_or(d)].env.clone();
         let f = make_function(st.arg(1));
-        let other_f = make_function(st.arg(1) + 1 + st.arg(2) % 4);
+        let other_code = st.arg(1) + 1 + st.arg(2) % 4;
+        let other_f = make_function(other_code);
+        let functions_differ = !same_function(st.arg(1), other_code);
         match op {
             "X.Expression" => {
                 let mut e = Expression::new(f.clone()).with_parameter(make_parameter(st.arg(2)), val.clone());
@@ -450,7 +467,7 @@ pub fn run_expr(scn: &Scenario, ctx: &mut Ctx) {
                         Ok(Err(er)) => ctx.violate("C18.roundtrip", format!("parsing with the right expected function failed: {}", er)),
                         Err(pn) => ctx.violate_sig("C16.no-panic", format!("Expression::try_from panicked: {}", pn), pn),
                     }
-                    if other_f != f {
+                    if functions_differ {
                         ctx.fault("cbor.struct.replace-function");
                         if let Ok(Ok(_)) = guarded(|| Expression::try_from((rx.clone(), Some(&other_f)))) {
                             ctx.violate("C18.malformed", "an expression with another function than the expected one was accepted".to_string());
@@ -463,7 +480,16 @@ pub fn run_expr(scn: &Scenario, ctx: &mut Ctx) {
                 ctx.t("X.Expression");
             }
             "X.Request" => {
-                let note = if st.arg(3) % 3 == 0 { String::new() } else { format!("note-{}", st.arg(3) % 50) };
+                let note = match st.arg(3) % 7 {
+                    0 | 3 => String::new(),
+                    1 => " ".to_string(),
+                    2 => "\t\n".to_string(),
+                    4 => format!(" padded {} ", st.arg(3) % 50),
+                    _ => format!("note-{}", st.arg(3) % 50),
+                };
+                if !note.is_empty() && note.trim().is_empty() {
+                    ctx.probe("whitespace-only-note");
+                }
                 let date = sim_date(clock, st.arg(4));
                 let mut rq = Request::new(f.clone(), arid(st.arg(2))).with_parameter(make_parameter(st.arg(2)), val.clone());
                 if st.arg(3) % 2 == 0 {
@@ -510,7 +536,7 @@ pub fn run_expr(scn: &Scenario, ctx: &mut Ctx) {
                         Ok(Err(er)) => ctx.violate("C18.roundtrip", format!("Request does not parse back: {}", er)),
                         Err(pn) => ctx.violate_sig("C16.no-panic", format!("Request::try_from panicked: {}", pn), pn),
                     }
-                    if other_f != f {
+                    if functions_differ {
                         ctx.fault("cbor.struct.replace-function");
                         if let Ok(Ok(_)) = guarded(|| Request::try_from((rx.clone(), Some(&other_f)))) {
                             ctx.violate("C18.malformed", "a request with another function than the expected one was accepted".to_string());
@@ -638,7 +664,12 @@ pub fn run_expr(scn: &Scenario, ctx: &mut Ctx) {
                 ctx.t("X.Response");
             }
             "X.Event" => {
-                let note = if st.arg(3) % 3 == 0 { String::new() } else { format!("n{}", st.arg(3) % 50) };
+                let note = match st.arg(3) % 7 {
+                    0 | 3 => String::new(),
+                    1 => " ".to_string(),
+                    2 => "\n".to_string(),
+                    _ => format!("n{}", st.arg(3) % 50),
+                };
                 let date = sim_date(clock, st.arg(4));
                 let content = format!("content-{}", st.arg(2) % 1000);
                 let mut ev = Event::<String>::new(content.clone(), arid(st.arg(2)));
